@@ -383,8 +383,26 @@ def check(case, stats):
         form = case.get('form')
         if any('?' in c for c in cards) and form == 'set':
             form = 'tuple'
+        # the same ordered cards are first shown to two other hand types'
+        # lookups (a verdict must not depend on what else was looked up in
+        # this process) and the construction is repeated (nor on itself)
+        try:
+            from pokerkit import Card as _Card
+            objs_ = tuple(_Card.parse(''.join(cards)))
+            for other in (pokerkit.StandardHighHand, pokerkit.RegularLowHand,
+                          pokerkit.BadugiHand):
+                if other is not cls:
+                    other.lookup.has_entry(objs_)
+        except Exception:  # noqa: BLE001
+            pass
         h = _build(cls, cards, form)
+        h_again = _build(cls, cards, form)
         accepted = not isinstance(h, Exception)
+        if accepted != (not isinstance(h_again, Exception)):
+            out.append(V(ID, 'verdict_changes_on_repetition', cname,
+                         f'{cname}({"".join(cards)!r} as {form or "str"}):'
+                         f' first {"accepted" if accepted else "rejected"},'
+                         ' then the opposite'))
         if accepted and form == 'list' and not any('?' in c for c in cards):
             # a hand keeps its own cards: the caller's list may be reused
             from pokerkit import Card
